@@ -227,22 +227,49 @@ Definition set_phase1 (s : st) (ulen : Z) : option (st * Z) :=
     else Some (s, - curlen)
   else Some (s, curlen).
 
+(* where the bytes of a setter come from: memory outside the node (given by value: the
+   bytes readable at the pointer), or a pointer into a heap block — the case of a caller
+   passing json_object_get_string(o) + off back to a setter of the same node.  A heap source is
+   read when the C code reads it, from the heap as it is at that moment. *)
+Inductive sptr :=
+| PExt (bs : list byte)
+| PHeap (id off : Z).
+
+(* the source operand of memcpy(dst-block + 0, src, n): None = undefined.
+   * external: n bytes must be readable;
+   * heap: n = 0 accesses no byte (this is the zero-length path, where the old buffer has
+     already been released); otherwise the block must be live and the range inside it, and
+     the ranges must not partially overlap.  Exactly equal pointers are accepted: it is the
+     de-facto guarantee of every memcpy in use (compilers emit such calls themselves, ASan's
+     overlap check exempts to == from); in-place truncation relies on it. *)
+Definition src_read (h : heap) (p : sptr) (dst n : Z) : option cells :=
+  match p with
+  | PExt bs => if n >? zlen bs then None else Some (map Some (zfirstn n bs))
+  | PHeap id off =>
+      if n =? 0 then Some []
+      else if (id =? dst) && (0 <? off) && (off <? n) then None
+      else hread h id off n
+  end.
+
 (* memcpy(dstbuf, s, len); dstbuf[len] = '\0'; jso->len = newlen; return 1 *)
-Definition set_finish (s : st) (dst : Z) (bs : list byte) (ulen newlen : Z) : sres :=
-  if ulen >? zlen bs then SUB else
-  match hwrite (hp s) dst 0 (zfirstn ulen bs) with
+Definition set_finish (s : st) (dst : Z) (p : sptr) (ulen newlen : Z) : sres :=
+  match src_read (hp s) p dst ulen with
   | None => SUB
-  | Some h1 =>
-    match hwrite h1 dst ulen [0] with
+  | Some cs =>
+    match hstore (hp s) dst 0 cs with
     | None => SUB
-    | Some h2 =>
-      (* inline bytes overwrite the representation of the pointer (union) *)
-      SOk (mkst newlen (ilen0 s) (if dst =? 0 then None else pptr s) h2 (reqs s) (elog s)) 1
-          [mkwr dst 0 ulen; mkwr dst ulen 1]
+    | Some h1 =>
+      match hwrite h1 dst ulen [0] with
+      | None => SUB
+      | Some h2 =>
+        (* inline bytes overwrite the representation of the pointer (union) *)
+        SOk (mkst newlen (ilen0 s) (if dst =? 0 then None else pptr s) h2 (reqs s) (elog s)) 1
+            [mkwr dst 0 ulen; mkwr dst ulen 1]
+      end
     end
   end.
 
-Definition set_string_sz (al : alloc) (s : st) (bs : list byte) (ulen : Z) : sres :=
+Definition set_string_sz (al : alloc) (s : st) (bs : sptr) (ulen : Z) : sres :=
   if ulen >=? INT_MAX - 1 then SOk s 0 [] else
   match set_phase1 s ulen with
   | None => SUB
@@ -277,13 +304,34 @@ Definition set_string_sz (al : alloc) (s : st) (bs : list byte) (ulen : Z) : sre
   end.
 
 (* json_object_set_string_len(jso, s, int len) *)
-Definition set_string_len (al : alloc) (s : st) (bs : list byte) (len : Z) : sres :=
-  set_string_sz al s bs (to_size_t len).
+Definition set_string_len (al : alloc) (s : st) (p : sptr) (len : Z) : sres :=
+  set_string_sz al s p (to_size_t len).
+
+(* strlen through a heap pointer: reading an indeterminate byte or running off the block is
+   undefined *)
+Fixpoint c_strlen_cells (cs : cells) : option Z :=
+  match cs with
+  | [] => None
+  | None :: _ => None
+  | Some b :: t => if b =? 0 then Some 0
+                   else match c_strlen_cells t with Some n => Some (1 + n) | None => None end
+  end.
+
+Definition src_strlen (h : heap) (p : sptr) : option Z :=
+  match p with
+  | PExt bs => c_strlen bs
+  | PHeap id off =>
+      match znth h id with
+      | Some b => if blive b && (0 <=? off) && (off <=? zlen (bcells b))
+                  then c_strlen_cells (zskipn off (bcells b)) else None
+      | None => None
+      end
+  end.
 
 (* json_object_set_string(jso, s): strlen *)
-Definition set_string (al : alloc) (s : st) (bs : list byte) : sres :=
-  match c_strlen bs with
-  | Some n => set_string_sz al s bs n
+Definition set_string (al : alloc) (s : st) (p : sptr) : sres :=
+  match src_strlen (hp s) p with
+  | Some n => set_string_sz al s p n
   | None => SUB
   end.
 
@@ -372,20 +420,29 @@ Definition str_ser (noslash : bool) (s : st) : option (list byte) :=
 
 Inductive sop :=
 | OpSetLen (bs : list byte) (len : Z)     (* json_object_set_string_len(o, bs, len) *)
-| OpSet (bs : list byte).                 (* json_object_set_string(o, bs) *)
+| OpSet (bs : list byte)                  (* json_object_set_string(o, bs) *)
+| OpSetOwnLen (off len : Z)               (* json_object_set_string_len(o, json_object_get_string(o) + off, len) *)
+| OpSetOwn (off : Z).                     (* json_object_set_string(o, json_object_get_string(o) + off) *)
 
 Definition str_step (al : alloc) (s : st) (o : sop) : sres :=
   match o with
-  | OpSetLen bs len => set_string_len al s bs len
-  | OpSet bs => set_string al s bs
+  | OpSetLen bs len => set_string_len al s (PExt bs) len
+  | OpSet bs => set_string al s (PExt bs)
+  | OpSetOwnLen off len =>
+      match comp s with Some id => set_string_len al s (PHeap id off) len | None => SUB end
+  | OpSetOwn off =>
+      match comp s with Some id => set_string al s (PHeap id off) | None => SUB end
   end.
 
-(* what the property statement calls "the bytes set" *)
+(* what the property statement calls "the bytes set"; [c] = the contents at the call, which
+   are what an own-buffer source points into *)
 Definition cstr (bs : list byte) : list byte :=
   match c_strlen bs with Some n => zfirstn n bs | None => bs end.
 
-Definition op_bytes (o : sop) : list byte :=
+Definition op_bytes (c : list byte) (o : sop) : list byte :=
   match o with
   | OpSetLen bs len => zfirstn len bs
   | OpSet bs => cstr bs
+  | OpSetOwnLen off len => zfirstn len (zskipn off c)
+  | OpSetOwn off => cstr (zskipn off c ++ [0])
   end.
